@@ -49,7 +49,7 @@ const CLASSES: &[&str] = &[
     "rekeyed",
 ];
 
-fn hc(thorough: bool) -> HistCheck<'static> {
+pub fn hc(thorough: bool) -> HistCheck<'static> {
     HistCheck {
         focus: "C05",
         profile: profile(thorough),
